@@ -27,7 +27,7 @@ REPO = os.environ.get("VERIF_REPO", "/repo")
 REPLAYS = os.path.join(VERIF, "replays")
 TLA_JAR = "/opt/veriftools/tla/tla2tools.jar"
 TLA_CM = "/opt/veriftools/tla/CommunityModules-deps.jar"
-NCPU = os.cpu_count() or 4
+NCPU = int(os.environ.get("VERIF_NCPU", "0") or 0) or os.cpu_count() or 4
 
 
 class Infra(Exception):
